@@ -645,6 +645,8 @@ func (c *client) loopWrite() {
 
 		select {
 		case <-c.quit:
+			// the request is in neither queue, nobody else could finish it.
+			req.SetResponse(newError(backendExited))
 			return
 		case c.processingReqs <- req:
 		}
